@@ -74,10 +74,11 @@ RProbe(S, k, ok, same) ==
   ELSE IF ~same THEN RViol(S, {RSig("probe", "resolves-to-other-object")})
   ELSE S
 
-\* end of a history, the client holds nothing: since == "" when the instance holds no more host descriptors than a
-\* fresh one, else the operation since which it has been holding more
-REnd(S, since) ==
-  IF since = "" THEN S
-  ELSE RViol(S, {RSig("end", "resources-not-released|since-" \o since \o (IF S.rdp THEN "+readdirplus" ELSE "")
-                                                                   \o (IF S.over # {} THEN "+over-forget" ELSE ""))})
+\* end of a history, the client holds nothing: leaked = the instance holds more host descriptors than a fresh one.
+\* The signature names what the history contained that is known to matter (classification only): a readdirplus of a
+\* directory other than the root, a successful rmdir, an over-forget.
+REnd(S, leaked, rdsub, rmd) ==
+  IF ~leaked THEN S
+  ELSE RViol(S, {RSig("end", "resources-not-released" \o (IF rdsub THEN "+readdirplus" ELSE "") \o (IF rmd THEN "+rmdir" ELSE "")
+                                                      \o (IF S.over # {} THEN "+over-forget" ELSE ""))})
 =============================================================================
